@@ -1220,6 +1220,37 @@ fn is_mixed(s: &Subject) -> bool {
     s.text.contains("#[coinductive]") && (s.text.contains("impl Tind") || !s.text.contains("trait Tind"))
 }
 
+/// The same goal posed twice to one SLG solver answers differently.  Known (F26b): the first query
+/// aggregates while the table is incomplete (`any_future_answer` also consults the pending strands,
+/// conservatively), the second over the completed table, so the second guidance can be MORE PRECISE;
+/// both are sound.  Told apart from a guidance that EXCLUDES an answer: the goal is run twice on a
+/// fresh `SLGSolver`, the completed table is read through the cfg hook, and the second answer's
+/// definite guidance is matched against every stored answer.
+fn repeated_query_classifier(db: &dyn RustIrDatabase<ChalkIr>, g: &UGoal) -> &'static str {
+    use crate::wire_sol::{erase_const_types, instance_of};
+    let mut solver: chalk_engine::solve::SLGSolver<ChalkIr> = chalk_engine::solve::SLGSolver::new(10, None);
+    let _ = catch_full(|| solver.solve(db, g));
+    let second = catch_full(|| solver.solve(db, g));
+    let stored = match solver.verif_table_dump(g) {
+        Some((false, st)) if st.iter().all(|(_, _, d)| !*d) => st,
+        _ => return "slg_repeated_query_differs",
+    };
+    match second {
+        Ok(Some(Solution::Ambig(chalk_solve::Guidance::Definite(c)))) => {
+            let pat = erase_const_types(&enc_subst(&c.value));
+            if stored.iter().all(|(s, _, _)| instance_of(&pat, &erase_const_types(&enc_subst(&s.value.subst)))) {
+                "slg_guidance_precision_depends_on_table_completion"
+            } else {
+                "slg_repeated_query_excludes_answer"
+            }
+        }
+        // one stored unconditional answer: `Unique` is that answer; guidance `Unknown`/`Suggested` excludes nothing
+        Ok(Some(Solution::Unique(_))) if stored.len() == 1 => "slg_guidance_precision_depends_on_table_completion",
+        Ok(Some(Solution::Ambig(_))) if !stored.is_empty() => "slg_guidance_precision_depends_on_table_completion",
+        _ => "slg_repeated_query_differs",
+    }
+}
+
 /// classifier of a history dependence that needs no interruption and no panic (a C10 defect)
 fn history_classifier(name: &str, s: &Subject, got: &Answer, fresh: &Answer) -> &'static str {
     let mixed = is_mixed(s);
@@ -1357,7 +1388,7 @@ pub fn oracle_c10(ctx: &Ctx, out: &mut Out, s: &Subject, rng: &mut Rng) {
                     // completed table, whose answers are in the order the first query produced them
                     // (the order a fresh solver produces), so this is not the order dependence F26
                     let repeated = name == "slg" && pos == 1 && seq[0] == seq[1] && !(s.coinductive || s.text.contains("#[auto]"));
-                    let classifier = if repeated { "slg_repeated_query_differs" } else { history_classifier(name, s, &a, &fresh[gi]) };
+                    let classifier = if repeated { repeated_query_classifier(db, &low.goals[gi].1) } else { history_classifier(name, s, &a, &fresh[gi]) };
                     out.fail(
                         &format!(
                             "{}: after solving {:?} the goal `{}` is answered {} but a fresh solver answers {}",
@@ -1651,6 +1682,38 @@ pub fn c09_configs_all() -> Vec<(String, SolverChoice)> {
     v
 }
 
+/// number of distinct constructors W such that some impl has a where-clause `W<..self type..>: Tr`
+/// whose type strictly contains the impl's self type (a "growing" condition)
+pub fn growing_wrappers(text: &str) -> usize {
+    let mut ws: Vec<String> = vec![];
+    for line in text.split(|c| c == '\n' || c == '|') {
+        let line = line.trim();
+        if !line.starts_with("impl") {
+            continue;
+        }
+        let (head, rest) = match line.split_once(" where ") {
+            Some(x) => x,
+            None => continue,
+        };
+        let self_ty = match head.rsplit_once(" for ") {
+            Some((_, t)) => t.trim(),
+            None => continue,
+        };
+        for cond in rest.trim_end_matches("{}").split(", ") {
+            if let Some((ty, _)) = cond.split_once(':') {
+                let ty = ty.trim();
+                if ty != self_ty && ty.contains(self_ty) && ty.contains('<') {
+                    let w = ty.split('<').next().unwrap_or("").to_string();
+                    if !ws.contains(&w) {
+                        ws.push(w);
+                    }
+                }
+            }
+        }
+    }
+    ws.len()
+}
+
 pub fn oracle_c09(ctx: &Ctx, out: &mut Out, s: &Subject, rng: &mut Rng) {
     let low = match lower_all(&s.text, &s.goal_texts) {
         Ok(l) => l,
@@ -1726,6 +1789,10 @@ pub fn oracle_c09(ctx: &Ctx, out: &mut Out, s: &Subject, rng: &mut Rng) {
                         "recursive_nocache_exponential_reprove"
                     } else if rec && s.coinductive && has_unknowns(gt) {
                         "recursive_coinductive_unknown_diverges"
+                    } else if rec && growing_wrappers(&s.text) >= 2 {
+                        // F34: two or more impls whose condition wraps the self type in different
+                        // constructors: the goals S2<S3<S2<..>>> up to max_size are all distinct
+                        "recursive_growing_types_exponential"
                     } else if rec {
                         "recursive_work_budget_exceeded"
                     } else if s.coinductive && !has_unknowns(gt) && !s.text.contains('<') {
